@@ -55,6 +55,7 @@ class Concretizer:
         self.names = list(names)
         self.ok = True
         self.notes = []
+        self.extra_names = []
         for i, n in enumerate(self.names):
             self.name_str(n, hint=str(n) if z3.is_const(n) and n.decl().kind() == z3.Z3_OP_UNINTERPRETED else None)
 
@@ -130,7 +131,91 @@ class Concretizer:
                         out.add(str(a))
         return out
 
+    def tree_from_T(self, term):
+        """Concrete tree from the model value of a structural (datatype) term."""
+        v = self.m.eval(term, model_completion=True)
+        return self._dt(v)
+
+    def _dt(self, v):
+        name = v.decl().name()
+        if name == "Constant":
+            fr = mnum(self.m, v.arg(0))
+            return ["Constant", jnum(fr) if not isinstance(fr, float) else fr]
+        if name == "Variable":
+            return ["Variable", self.name_str(v.arg(0))]
+        if name in ("Add", "Multiply"):
+            items = []
+            l = v.arg(0)
+            while l.decl().name() == "cons":
+                items.append(self._dt(l.arg(0)))
+                l = l.arg(1)
+            return [name] + items
+        if name in ("NthPower", "NthRoot"):
+            n = mnum(self.m, v.arg(1))
+            return [name, self._dt(v.arg(0)), max(1, int(n))]
+        if name in ("Exponential", "Logarithm"):
+            b = mnum(self.m, v.arg(1))
+            b = float(b)
+            if b <= 0 or (name == "Logarithm" and b == 1):
+                b = 2.0
+            return [name, self._dt(v.arg(0)), b]
+        return [name] + [self._dt(v.arg(i)) for i in range(v.num_args())]
+
+    def value(self, v, x=None):
+        """JSON encoding of an arbitrary argument value."""
+        if isinstance(v, Obj):
+            if v.kind == "foreign":
+                return {"foreign": True}
+            if v.cls is not None and v.cls.name == "Point":
+                return {"point": self.point_of(v)}
+            return {"tree": self.tree(v, x)}
+        if isinstance(v, SNum):
+            return {"num": self.number(v)}
+        if isinstance(v, SName):
+            return {"str": self.name_str(v.term)}
+        if v is None:
+            return {"none": True}
+        if isinstance(v, (int, float, str)):
+            return {"num": v} if not isinstance(v, str) else {"str": v}
+        return {"repr": repr(v)}
+
+    def array_indices(self, arr):
+        """Index values occurring in the model value of an array (Store chains)."""
+        out = []
+        v = self.m.eval(arr, model_completion=True)
+        stack = [v]
+        while stack:
+            t = stack.pop()
+            if z3.is_app(t) and t.decl().kind() == z3.Z3_OP_STORE:
+                out.append(t.arg(1))
+                stack.append(t.arg(0))
+            elif z3.is_app(t) and t.decl().kind() == z3.Z3_OP_AS_ARRAY:
+                fi = self.m[t.decl().params()[0]] if False else None
+        return out
+
+    def point_of(self, pt):
+        d = pt.fields["_coordinates"]
+        if d.base is not None and hasattr(d.base, "present"):
+            for w in self.array_indices(d.base.present) + self.array_indices(d.base.vals):
+                if all(w.get_id() != e.get_id() for e in self.extra_names):
+                    self.extra_names.append(w)
+        out = {}
+        for key, val in d.entries:
+            out[self.name_str(self.I.bi.key_term(key))] = self.number(val)
+        if d.base is not None and hasattr(d.base, "present"):
+            # names of interest: every name term the concretizer has seen so far
+            for n in list(self.names):
+                if mval(self.m, z3.Select(d.base.present, n)) is True:
+                    out[self.name_str(n)] = jnum(mnum(self.m, z3.Select(d.base.vals, n)) or Fraction(0))
+            # plus the model's own witnesses for a difference between two points
+            for w in self.extra_names:
+                if mval(self.m, z3.Select(d.base.present, w)) is True:
+                    out[self.name_str(w)] = jnum(mnum(self.m, z3.Select(d.base.vals, w)) or Fraction(0))
+        return out
+
     def leaf(self, o, x):
+        if "T" in o.ghost and self.pt is None:
+            return self.tree_from_T(o.ghost["T"])
         t = self.leaf0(o, x)
         ex = self.excluded_classes(o)
         if t[0] not in ex:
@@ -201,6 +286,10 @@ def build_scenario(I, res, model):
     try:
         names = list(I.ghost.get("ambient_names", []))
         x = rp.get("x")
+        if callable(x):
+            x = x()
+        if callable(rp.get("pt")):
+            rp = dict(rp, pt=rp["pt"]())
         if x is not None and all(x is not n for n in names):
             names.append(x)
         pt = rp.get("pt")
